@@ -197,7 +197,7 @@ open Genshi.Py.Lex in
 /-- **Expression boundaries.**  In template text `pre ${inner} post` (no `$` in `pre`, `post`) the
     chunks are the literal `pre`, the expression with exactly the text `inner`, the literal `post` —
     for every `inner` made of blanks, operators, words, string literals (escapes, braces and `$`
-    inside them do not count) and balanced braces nested to any depth (`Scannable`). -/
+    inside them do not count), comments, and balanced braces nested to any depth (`Scannable`). -/
 theorem lex_expression_boundaries (pre inner post : List Char) (hpre : ∀ c ∈ pre, c ≠ '$')
     (hpost : ∀ c ∈ post, c ≠ '$') (hi : Scannable inner) :
     lex (pre ++ '$' :: '{' :: (inner ++ '}' :: post)) = .ok (textChunk pre ++ [(true, inner)] ++ textChunk post) :=
